@@ -10,6 +10,12 @@ NOT_APPLICABLE = {
 }
 
 TEXT = {
+    'C18': {
+        'technique': 'Verus contracts on TimeoutSettings::new / getters / defaults (validity invariant: no zero duration), on both apply_timeout implementations (total, zero reported as InvalidInput) and on the retry counter arithmetic',
+        'engine': 'verus',
+        'level_text': 'Unbounded proof: new() returns Err(InvalidInput) iff one of the three durations is zero, and Ok values carry the validity invariant; the defaults are valid; applying any settings value to a socket (validated or not) never panics and reports a zero duration as InvalidInput; retry_on_timeout is overflow-free for every retry count including usize::MAX.',
+        'level_note': 'std Duration and socket timeout setters are assumed from the std documentation; the clap/serde derive-generated constructors are outside reach (not verified) - they bypass new(), the proof shows such values are rejected at socket set-up instead of panicking.',
+    },
     'C10': {
         'technique': 'Verus proof of retry_on_timeout for every retry count (ghost attempt counter, loop invariant); Kani harnesses on each real wrapper with the attempt function stubbed by a scripted recorder',
         'level_text': 'retry_on_timeout: unbounded proof (all r incl. usize::MAX, all closures) that exactly one attempt is made per iteration, at most r+1 in total, only receive/send-class failures are retried, the result is an outcome of an attempt and after r+1 timeouts the last timeout error is returned. Wrappers (valve, gamespy 1/2/3, unreal2, java, bedrock, legacy 1.6): bit-precise check for r in {0,1} over all 125 three-attempt outcome scripts that the number of attempts, the arguments of every attempt and the result match the retry specification.',
